@@ -151,8 +151,13 @@ def cases(seed, tier):
                 f = {'conn': 0, 'kind': kind}
                 if arch == 'client':
                     f = {'conn': 0, 'msg': idx, 'kind': 'close_before'}
-            yield {'kind': 'broken', 'arch': arch, 'faults': [f], 'tag': tag, 'opts': rng.choice(OPTSETS + [[]]), 'timeout': rng.choice([1, 2]),
-                   'net': {'rtt_us': rng.choice([100, 2000]), 'seg': {'mode': rng.choice(['msg', 'mss']), 'mss': 7, 'banner_atomic': True}}, 'pseed': rng.getrandbits(32)}
+            c = {'kind': 'broken', 'arch': arch, 'faults': [f], 'tag': tag, 'opts': rng.choice(OPTSETS + [[]]), 'timeout': rng.choice([1, 2]),
+                 'net': {'rtt_us': rng.choice([100, 2000]), 'seg': {'mode': rng.choice(['msg', 'mss']), 'mss': 7, 'banner_atomic': True}}, 'pseed': rng.getrandbits(32)}
+            # an audit requested through a targets file is still an audit: the same target as the only line of a -T file (the
+            # multi-target code path folds the status and wraps the error differently)
+            if arch != 'client' and gen.case_rng(seed, ID, i, 'via_file').random() < 0.3:
+                c['via_file'] = True
+            yield c
         else:
             prof = gen.archetype(rng.choice(['modern', 'hardened', 'old']))
             drift = rng.choice([None, None, 'kex', 'key', 'enc', 'mac'])
@@ -230,6 +235,10 @@ def run_case(case, ctx):
             keys.append(h('complete', sev, case['optsets']))
     elif kind == 'broken':
         plan = c09.base_plan(case['arch'], case['opts'], case['timeout'], case['net'], case['faults'], case['pseed'])
+        if case.get('via_file'):
+            plan['argv'] = [a for a in plan['argv'] if a != 'srv.example:2222'] + ['-T', '{DIR}/targets.txt']
+            plan['dir'] = ctx.scratch()
+            plan['files'] = {'targets.txt': 'srv.example:2222\n'}
         r = ctx.run(plan)
         if r.get('harness_error'):
             return {'violations': [], 'keys': []}
@@ -258,6 +267,8 @@ def run_case(case, ctx):
                     doc, _end = json.JSONDecoder().raw_decode(txt.lstrip())
                 except ValueError:
                     doc = None
+                if isinstance(doc, list) and len(doc) == 1 and case.get('via_file'):
+                    doc = doc[0]
                 if isinstance(doc, dict):
                     shown = {c: doc.get(c) for c in ('kex', 'key', 'enc', 'mac', 'aut') if doc.get(c)}
                     if shown:
@@ -268,7 +279,7 @@ def run_case(case, ctx):
                 if tr.has_alg_report():
                     out.append(viol('C02 broken: text shows an algorithm report although none was obtained (%s)' % desc, r['stdout'][-800:]))
             if r.get('faults_fired'):
-                keys.append(h('broken', case['arch'], case['tag'], f['kind'], f.get('off', 0) // 16, case['opts']))
+                keys.append(h('broken', case['arch'], case['tag'], f['kind'], f.get('off', 0) // 16, case['opts'], bool(case.get('via_file'))))
     else:
         argv = list(case['opts']) + ['--skip-rate-test', '-P', '{DIR}/policy.txt', 'srv.example:2222']
         plan = gen.server_plan(case['pseed'], argv, case['profile'], port=2222, net=case['net'])
